@@ -266,7 +266,7 @@ pub fn c11_threads(im: &Image, n: u64, racers: usize, bound: usize, label: &str,
                 b
             })
             .collect();
-        let exec = sched::run_schedule(&dir, bodies, prefix, sched::visible_all, &mut |_, _| {}, Duration::from_secs(60));
+        let exec = sched::run_schedule(&dir, bodies, prefix, sched::visible_all, Box::new(|_, _| {}), Duration::from_secs(60));
         res.count("executions", 1);
         res.count("transitions", exec.points.len() as u64);
         let choices = exec.choices();
